@@ -2,7 +2,7 @@ ID = "C17"
 LEVEL = "model_checking"
 MIRSYM = "C17"
 BOUNDS = ("the fixture family /verif/fixture17 (3 traits: namespace with '.' separator / none / default separator; 0..4 parameters; Option tails of length 0..2; array and map encoding; "
-          "aliases; sync / async / blocking; subscriptions with parameters); argument values are opaque symbols: every value of the declared types; every decode outcome")
+          "aliases; sync / async / blocking; subscriptions with parameters); argument values are opaque symbols: every value of the declared types; every decode outcome; fixture extended with renamed / non-canonical wire names and subscription / unsubscribe aliases")
 EXPLANATION = ("rustc expands the rpc macro on the fixture crate; the MIR of the expansion (client stubs, into_rpc, every registered callback and the by-name field visitors) is executed "
                "symbolically and compared with the declarations read from the fixture's source: names, order, optionality, kinds, aliases. Together with C20 (params builders), C16 "
                "(sequence reads) and C01/C03 (transport of the call) this gives argument equality end to end; the native replay runs the same expansion through a mock client and RpcModule.")
